@@ -7,7 +7,11 @@ chipset simulator vf.sim.chipsets.rcs380.Port100Sim.  Everything is observed at 
 C13 monitor   for every target kind: real clf.sense()/clf.listen() against the simulator, one reference
               exchange (n host commands), then for k = 1..n and every status / host-link fault one exchange with the
               fault at host command k; the outcome must be data | None (as target only) | nfc.clf.CommunicationError
-              subclass | IOError.
+              subclass | IOError.  Finer clauses for communication status words made of documented bits only:
+              RECEIVE_TIMEOUT_ERROR alone -> TimeoutError; as a listening target RF_OFF_ERROR alone or together
+              with any other documented bits -> BrokenLinkError (the external field is gone whatever else the chip
+              noticed); a word without the time-out bit never TimeoutError, without the RF-off bit never
+              BrokenLinkError.
 C14 monitors  frames: Chipset.send_command() and the Frame class for all command codes x payload lengths, every
               written frame against vf.ref.port100_frames; responses: how corrupted responses are handled (recorded
               only); t2crc: the driver-side CRC_A check of Type 2 Tag responses against a bit-serial reference.
@@ -24,8 +28,9 @@ FAM = "rcs380"
 
 RULE_C13 = ("cells = target kind (9 remote cards: T1T/T2T/T4A/DEP 106A, 106B, 212F/424F tag and DEP; 7 listen modes: "
             "tt2, tt4, tt3 212/424, dep 106A/212F/424F) x host command k of the exchange (all n of the reference run) x "
-            "fault: RF commands get every single status bit (32), all pairs of the 12 documented bits (thorough: of all 32 "
-            "bits), FFFFFFFFh, 1000 (thorough 40000) random 32-bit words and random combinations of documented bits; "
+            "fault: RF commands get every single status bit (32), every non-empty combination of the 12 documented bits "
+            "(4095 words: all pairs, triples, ... in initiator and target role), thorough also all pairs of all 32 "
+            "bits, FFFFFFFFh, 1000 (thorough 40000) random 32-bit words; "
             "configuration commands get all 255 non-zero status bytes; every command gets every host-link fault "
             "(time-out/EIO/ENODEV at write, first and second read, missing/duplicate/short ACK, every truncation of the "
             "response frame and of its payload, every single-bit flip, wrong LCS/DCS/postamble/start code, error "
@@ -39,7 +44,9 @@ RULE_C14 = ("frames: every command code of the driver's table x payload lengths 
             "valid CRC_A (all 1-byte, sampled/all 2-byte, random longer messages) must come back unchanged, every "
             "single-bit corruption and random wrong CRCs must not be returned as data. A case is distinct by its bytes.")
 REQUIRED_C13 = ["rcs380_c13_cells", "rcs380_c13_cells_rf_status", "rcs380_c13_cells_status_byte",
-                "rcs380_c13_cells_hostlink", "rcs380_c13_reference_exchanges", "rcs380_c13_host_frames_validated"]
+                "rcs380_c13_cells_hostlink", "rcs380_c13_reference_exchanges", "rcs380_c13_host_frames_validated",
+                "rcs380_c13_finer_timeout_checked", "rcs380_c13_finer_rf_off_alone_checked",
+                "rcs380_c13_finer_rf_off_combined_checked"]
 REQUIRED_C14 = ["rcs380_c14_frames_validated", "rcs380_c14_frame_class_validated", "rcs380_c14_rsp_mutations",
                 "rcs380_c14_t2crc_valid_returned", "rcs380_c14_t2crc_corrupt_rejected",
                 "rcs380_c14_operation_frames_validated"]
@@ -228,6 +235,9 @@ def reference(sess):
 # C13: fault cells and the oracle
 # ======================================================================================================
 DOCUMENTED = list(S.STATUS_BITS.values())
+DOC_MASK = 0
+for _b in DOCUMENTED:
+    DOC_MASK |= _b
 TIMEOUT_BIT = S.STATUS_BITS["RECEIVE_TIMEOUT_ERROR"]
 RF_OFF_BIT = S.STATUS_BITS["RF_OFF_ERROR"]
 
@@ -245,18 +255,17 @@ def status_cells(code, rng, n_random, all_pairs32=False):
     if code in S.RF_COMMANDS:
         for b in range(32):
             yield {"kind": "rf_status", "word": 1 << b}
-        bits = [1 << b for b in range(32)] if all_pairs32 else DOCUMENTED
-        for a, b in itertools.combinations(bits, 2):
-            yield {"kind": "rf_status", "word": a | b}
+        # every combination of two or more documented bits (pairs, triples, ... all twelve)
+        for r in range(2, len(DOCUMENTED) + 1):
+            for combo in itertools.combinations(DOCUMENTED, r):
+                yield {"kind": "rf_status", "word": sum(combo)}
+        if all_pairs32:
+            for a, b in itertools.combinations([1 << b for b in range(32)], 2):
+                if not (a & DOC_MASK and b & DOC_MASK):
+                    yield {"kind": "rf_status", "word": a | b}
         yield {"kind": "rf_status", "word": 0xFFFFFFFF}
         for _ in range(n_random):
             w = rng.getrandbits(32)
-            yield {"kind": "rf_status", "word": w or 1}
-        for _ in range(n_random // 4):                       # random combinations of documented bits only
-            w = 0
-            for b in DOCUMENTED:
-                if rng.random() < 0.3:
-                    w |= b
             yield {"kind": "rf_status", "word": w or 1}
     else:
         for s in range(1, 256):
@@ -293,8 +302,10 @@ def link_cells(good, rng, n_garbage=6):
         yield {"kind": "link", "fault": "garbage@ack", "bytes": g}
 
 
-def judge(sess, code, act, res):
-    """-> (outcome class, [(signature, what)])"""
+def judge(sess, code, act, res, notes=None):
+    """-> (outcome class, [(signature, what)]); the names of the finer clauses that applied are appended to notes"""
+    if notes is None:
+        notes = []
     nfc = sess.nfc
     cname = S.CMD_NAMES.get(code, "%02Xh" % code)
     where = "%s@%s" % (fault_class(act), cname)
@@ -319,18 +330,28 @@ def judge(sess, code, act, res):
     e = val
     if isinstance(e, nfc.clf.CommunicationError):
         out = "clf." + type(e).__name__
-        if act["kind"] == "rf_status":
+        if act["kind"] == "rf_status" and not act["word"] & ~DOC_MASK:
+            # finer clauses, only for words made of documented bits
             w = act["word"]
-            if w == TIMEOUT_BIT and not isinstance(e, nfc.clf.TimeoutError):
-                viol.append(("rcs380/wrong-error/%s/rf-status:RECEIVE_TIMEOUT_ERROR@%s" % (type(e).__name__, cname),
-                             "receive time-out status must surface as nfc.clf.TimeoutError, got %s" % type(e).__name__))
-            if w == RF_OFF_BIT and sess.is_target and not isinstance(e, nfc.clf.BrokenLinkError):
-                viol.append(("rcs380/wrong-error/%s/rf-status:RF_OFF_ERROR@%s" % (type(e).__name__, cname),
-                             "external field lost must surface as nfc.clf.BrokenLinkError, got %s" % type(e).__name__))
-            if w in DOCUMENTED and w != TIMEOUT_BIT and isinstance(e, nfc.clf.TimeoutError):
+            got = type(e).__name__
+            others = w & ~RF_OFF_BIT
+            if w == TIMEOUT_BIT:
+                notes.append("rcs380_c13_finer_timeout_checked")
+                if not isinstance(e, nfc.clf.TimeoutError):
+                    viol.append(("rcs380/wrong-error/%s/rf-status:RECEIVE_TIMEOUT_ERROR@%s" % (got, cname),
+                                 "receive time-out status must surface as nfc.clf.TimeoutError, got %s" % got))
+            if w & RF_OFF_BIT and sess.is_target:
+                # the external field is gone: BrokenLinkError, alone or together with whatever else the chip noticed
+                notes.append("rcs380_c13_finer_rf_off_%s_checked" % ("combined" if others else "alone"))
+                if not isinstance(e, nfc.clf.BrokenLinkError):
+                    with_ = "" if not others else ("+RECEIVE_TIMEOUT_ERROR" if others & TIMEOUT_BIT else "+other-bits")
+                    viol.append(("rcs380/wrong-error/%s/rf-status:RF_OFF_ERROR%s@%s" % (got, with_, cname),
+                                 "external field lost (status %08Xh has RF_OFF_ERROR set) must surface as "
+                                 "nfc.clf.BrokenLinkError, got %s" % (w, got)))
+            if not w & TIMEOUT_BIT and isinstance(e, nfc.clf.TimeoutError):
                 viol.append(("rcs380/wrong-error/TimeoutError/rf-status:non-timeout@%s" % cname,
                              "status %08Xh is no time-out but surfaced as nfc.clf.TimeoutError" % w))
-            if w in DOCUMENTED and w != RF_OFF_BIT and isinstance(e, nfc.clf.BrokenLinkError):
+            if not w & RF_OFF_BIT and isinstance(e, nfc.clf.BrokenLinkError):
                 viol.append(("rcs380/wrong-error/BrokenLinkError/rf-status:non-rf-off@%s" % cname,
                              "status %08Xh is no field loss but surfaced as nfc.clf.BrokenLinkError" % w))
         return out, viol
@@ -350,7 +371,8 @@ def run_cell(sess, k, code, act, R, kind, fresh, send=None):
     n0 = sess.sim.fault_applied
     res, send = sess.exchange({k: act}, send=send)
     delivered = sess.sim.fault_applied > n0
-    out, viol = judge(sess, code, act, res)
+    notes = []
+    out, viol = judge(sess, code, act, res, notes)
     cls = fault_class(act)
     key = (kind, k, sorted((a, bytes(b).hex() if isinstance(b, (bytes, bytearray)) else b) for a, b in act.items()))
     R.case(key, nontrivial=delivered)
@@ -358,6 +380,10 @@ def run_cell(sess, k, code, act, R, kind, fresh, send=None):
     R.count("rcs380_c13_cells_" + {"rf_status": "rf_status", "status_byte": "status_byte", "link": "hostlink"}[act["kind"]])
     if not delivered:
         R.count("rcs380_c13_fault_not_reached")
+    for name in notes:
+        R.count(name)
+    if act["kind"] == "rf_status" and sess.is_target and act["word"] & RF_OFF_BIT and not act["word"] & ~DOC_MASK:
+        R.seen("rcs380_c13_target_rf_off_words_by_bits_set", bin(act["word"]).count("1"))
     R.seen("rcs380_c13_outcomes", "%s|%s -> %s" % ("target" if sess.is_target else "initiator", cls, out))
     R.count("rcs380_c13_outcome_" + out.split(":")[0].replace(".", "_"))
     for sig, what in viol:
@@ -472,11 +498,10 @@ def _balanced(kinds, n):
 
 def plan_c13(tier):
     if tier == "quick":
-        # four-command kinds are the expensive ones; interleave them
-        order = ["T1T", "T3T212", "TT2", "DEP-106A", "T2T", "T3T424", "TT4", "DEP-212F", "T4A", "DEPF212", "TT3-212",
-                 "DEP-424F", "DEPA", "DEPF424", "TT3-424", "T4B"]
+        # the remote-card kinds have four host commands per exchange, the listen kinds one: ALL_KINDS lists the nine card
+        # kinds first, so dealing them round-robin gives every shard two or three card kinds and one or two listen kinds
         return [{"kinds": g, "n_random": 1000, "pairs32": False, "link_fresh": True, "timeout": 300}
-                for g in _balanced(order, 3)]
+                for g in _balanced(ALL_KINDS, 4)]
     return [{"kinds": g, "n_random": 40000, "pairs32": True, "link_fresh": True, "timeout": 1500}
             for g in _balanced(ALL_KINDS, 8)]
 
